@@ -178,6 +178,63 @@ func (w *world) round0Commit(g int64, id types.BlockID, seed int64) *types.Commi
 	return types.NewCommit(g, 0, id, sigs)
 }
 
+// quorumCommit: a commit of height g whose for-block power sits at the quorum boundary but is never
+// above two thirds.  forX: for the minority block X, signed by a coalition of exactly that power (its
+// members equivocate; nobody else ever signs X) — the other slots are absent, or carry the honest
+// validators' genuine round-0 precommits for nil where round 0 of g failed.  Otherwise: for the
+// canonical block, the canonical commit with for-block slots blanked out down to that power.
+func (w *world) quorumCommit(g int64, forX bool, variant int64, seed int64) *types.Commit {
+	rec := w.rec(g)
+	vals := rec.StateBefore.Validators
+	r := rand.New(rand.NewSource(seed))
+	var total int64
+	for _, v := range vals.Validators {
+		total += v.VotingPower
+	}
+	target := quorumTarget(total, variant)
+	if !forX {
+		var cand []int
+		for i, sg := range rec.Commit.Signatures {
+			if sg.BlockIDFlag == types.BlockIDFlagCommit {
+				cand = append(cand, i)
+			}
+		}
+		keep, _ := subsetWithPower(r, vals, cand, target, false)
+		cm := cloneCommit(rec.Commit)
+		for _, i := range cand {
+			if !keep[i] {
+				cm.Signatures[i] = types.NewCommitSigAbsent()
+			}
+		}
+		return types.NewCommit(cm.Height, cm.Round, cm.BlockID, cm.Signatures)
+	}
+	all := make([]int, vals.Size())
+	for i := range all {
+		all[i] = i
+	}
+	q, _ := subsetWithPower(r, vals, all, target, false)
+	id := blockIDOf(w.wrongTxsBlock(g))
+	round := rec.Commit.Round
+	voters, failed := w.failed[g]
+	useNil := failed && r.Intn(2) == 0
+	if useNil {
+		round = 0
+	}
+	sigs := make([]types.CommitSig, vals.Size())
+	for i, v := range vals.Validators {
+		ts := w.c.VoteTime(g, i)
+		switch {
+		case q[i]:
+			sigs[i] = w.c.SignVote(vals, i, tmproto.PrecommitType, g, round, id, ts).CommitSig()
+		case useNil && !voters[i] && !w.F[string(v.Address)]:
+			sigs[i] = w.c.SignVote(vals, i, tmproto.PrecommitType, g, 0, types.BlockID{}, ts).CommitSig()
+		default:
+			sigs[i] = types.NewCommitSigAbsent()
+		}
+	}
+	return types.NewCommit(g, round, id, sigs)
+}
+
 func blockIDOf(b *types.Block) types.BlockID {
 	return types.BlockID{Hash: b.Hash(), PartSetHeader: b.MakePartSet(types.BlockPartSizeBytes).Header()}
 }
@@ -223,6 +280,10 @@ func (w *world) build(p *PeerSpec, h int64) (blk *types.Block, noBlock, silent b
 		return w.wrongTxsBlock(h), false, false
 	case "nilBackedFork":
 		return withLastCommit(w.rec(h).Block, w.round0Commit(h-1, blockIDOf(w.wrongTxsBlock(h-1)), b.Arg)), false, false
+	case "quorumFork":
+		return withLastCommit(w.rec(h).Block, w.quorumCommit(h-1, true, b.Arg, int64(b.Slot))), false, false
+	case "quorumWeak":
+		return withLastCommit(w.rec(h).Block, w.quorumCommit(h-1, false, b.Arg, int64(b.Slot))), false, false
 	case "weakCommit":
 		return withLastCommit(w.rec(h).Block, w.round0Commit(h-1, w.rec(h-1).BlockID, b.Arg)), false, false
 	case "wrongHeader":
